@@ -1109,8 +1109,14 @@ stream_encoder_mt_init(lzma_next_coder *next, const lzma_allocator *allocator,
 	coder->thr = NULL;
 
 	// Allocate the thread-specific base structures.
+	//
+	// The input buffer of each initialized worker thread was allocated
+	// with the old coder->block_size, so the old threads can be reused
+	// only if the block size doesn't change. (With a new coder,
+	// threads_max is zero and block_size isn't read.)
 	assert(options->threads > 0);
-	if (coder->threads_max != options->threads) {
+	if (coder->threads_max != options->threads
+			|| coder->block_size != (size_t)(block_size)) {
 		threads_end(coder, allocator);
 
 		coder->threads = NULL;
